@@ -400,6 +400,16 @@ Proof.
 Qed.
 Print Assumptions C15_pather_oracle_holds_for_model.
 
+(* "the round reports an error when no path is available": a reference clock in another AS that was built
+   without a SCION daemon address has no Pather; its round offers no path and reports errNoPath (every client
+   reset), for all client states, tapes and contexts - it does not touch the absent Pather (repair of
+   timeservice.go MeasureClockOffset: the Pather is asked only if there is one). *)
+Theorem C15_no_pather_no_path_error : forall c q cs d tape mss vss,
+  clock_round c None q cs d tape mss vss = RNoPath (map reset_client cs) (map (fun _ => true) cs) tape
+  /\ forall st, clock_round c (Some st) q cs d tape mss vss = pather_round c st q cs d tape mss vss.
+Proof. intros. split; [apply clock_round_no_pather|reflexivity]. Qed.
+Print Assumptions C15_no_pather_no_path_error.
+
 (* ---- the hypotheses are satisfiable; the functions compute ---- *)
 Definition ex_client (il : bool) (fp : Z) : cstate := {| cs_en := true; cs_ref := il; cs_il := il; cs_fp := fp; cs_old := false |}.
 
